@@ -32,6 +32,60 @@ def probe_ops(L, S):
     return [("chunk", 1), ("chunk", L), ("chunk", 0), ("chunk", L + S - 1), ("finalize",)]
 
 
+def refused_calls_leave_no_trace(run, cfgs, nprng):
+    """A compute_full / frame_by_frame_calculation refused mid-utterance (whatever the dtype or length of the signal it was
+    offered) leaves the utterance in progress exactly as it was: what follows is, array for array (values and dtype),
+    what an undisturbed instance returns.  STFT and short-integration."""
+    from pydrobert.speech.compute import frame_by_frame_calculation
+    import gen_mc
+    import si_model
+    makers = [("stft", (L, S, st), (lambda L=L, S=S, st=st: stubs.make_stft(L, S, st)), L, S) for (L, S, st) in cfgs]
+    for c_ in gen_mc.si_configs("quick")[::5]:
+        taps = [list(nprng.randint(-3, 4, size=c_["length"]).astype(float) + 0.5)]
+        if c_["style"] == "centered":
+            taps[0][-1] = 0.0
+        makers.append(("si", c_, (lambda c_=c_, taps=taps: si_model.make_si(c_, taps, use_power=True, use_log=False)), c_["D"], c_["S"]))
+    for (kind, cfg, mk, L, S) in makers:
+        x = nprng.randn(3 * L + S + 2)
+        for k1 in (0, 1, L // 2 + 1, L + S):
+            for other_dt in (np.float32, np.float64, np.float16):
+                used, clean = mk(), mk()
+                outs_u, outs_c = [used.compute_chunk(x[:k1])], [clean.compute_chunk(x[:k1])]
+                offered = nprng.randn(2 * L + 1).astype(other_dt)
+                offered.flags.writeable = False
+                for call in ("full", "fbf"):
+                    try:
+                        if call == "full":
+                            used.compute_full(offered)
+                        else:
+                            frame_by_frame_calculation(used, offered, 3)
+                        run.violation({"kind": kind + "_call_not_refused_mid_utterance", "cfg": cfg, "call": call, "fed": k1})
+                    except ValueError:
+                        pass
+                if not used.started:
+                    run.violation({"kind": kind + "_refused_call_ended_the_utterance", "cfg": cfg, "fed": k1})
+                outs_u.append(used.compute_chunk(x[k1:k1 + S + 1]))
+                outs_c.append(clean.compute_chunk(x[k1:k1 + S + 1]))
+                outs_u.append(used.finalize())
+                outs_c.append(clean.finalize())
+                run.evaluations += 1
+                if any(a.dtype != b.dtype or a.shape != b.shape or a.tobytes() != b.tobytes() for a, b in zip(outs_u, outs_c)):
+                    run.violation({"kind": kind + "_refused_call_disturbed_the_utterance", "cfg": cfg, "fed": k1, "offered_dtype": str(np.dtype(other_dt)),
+                                   "dtypes": [str(a.dtype) for a in outs_u], "undisturbed_dtypes": [str(b.dtype) for b in outs_c]})
+                # ... and directly: refused, then finalize with nothing in between
+                used, clean = mk(), mk()
+                used.compute_chunk(x[:k1 + S])
+                clean.compute_chunk(x[:k1 + S])
+                try:
+                    used.compute_full(offered)
+                except ValueError:
+                    pass
+                a, b = used.finalize(), clean.finalize()
+                if a.dtype != b.dtype or a.shape != b.shape or a.tobytes() != b.tobytes():
+                    run.violation({"kind": kind + "_refused_call_disturbed_the_utterance", "cfg": cfg, "fed": k1 + S, "offered_dtype": str(np.dtype(other_dt)),
+                                   "what": "finalize directly after the refused call", "dtype": str(a.dtype), "undisturbed_dtype": str(b.dtype)})
+
+
 def stft_histories(run, tier, rng):
     nprng = np.random.RandomState(rng.randint(0, 2 ** 31 - 1))
     cfgs = c01.stft_configs(tier)
@@ -59,6 +113,11 @@ def stft_histories(run, tier, rng):
             fresh = stubs.make_stft(L, S, st)
             vals_used, vals_fresh = [], []
             xr = nprng.randn(3 * L + S + 1)
+            # a whole-signal call first: result (values AND dtype) as a new instance gives it
+            fu, ff = c.compute_full(xr), stubs.make_stft(L, S, st).compute_full(xr)
+            if fu.dtype != ff.dtype or fu.shape != ff.shape or fu.tobytes() != ff.tobytes():
+                run.violation({"kind": "stft_compute_full_differs_from_fresh_instance", "L": L, "S": S, "style": st,
+                               "history": [list(o) for o in h], "used_dtype": str(fu.dtype), "fresh_dtype": str(ff.dtype)})
             p0 = 0
             for cpos in (1, max(1, L // 2 - 1), L, 3 * L + S + 1):
                 vals_used.append(c.compute_chunk(xr[p0:cpos]))
@@ -83,6 +142,10 @@ def stft_histories(run, tier, rng):
             run.evaluations += 1
             a = np.concatenate(vals_used)
             b = np.concatenate(vals_fresh)
+            # (modulo byte order: the recorder hands its chunks over in varying memory layouts)
+            if [v.dtype.newbyteorder("=") for v in vals_used] != [v.dtype.newbyteorder("=") for v in vals_fresh]:
+                run.violation({"kind": "stft_probe_dtype_differs_from_fresh_instance", "L": L, "S": S, "style": st, "history": [list(o) for o in h],
+                               "used": [str(v.dtype) for v in vals_used], "fresh": [str(v.dtype) for v in vals_fresh]})
             if a.shape != b.shape or a.tobytes() != b.tobytes():
                 run.violation({"kind": "stft_probe_differs_from_fresh_instance", "L": L, "S": S, "style": st,
                                "history": [list(o) for o in h], "used_shape": list(a.shape), "fresh_shape": list(b.shape)})
@@ -92,6 +155,7 @@ def stft_histories(run, tier, rng):
             traces.append({"tid": tid, "cfg": {"L": L, "S": S, "st": stubs.spec_style(st)},
                            "events": [{k: e[k] for k in ("a", "err", "fr", "st", "c", "n", "cs") if k in e} for e in rec.events]})
             meta[tid] = (L, S, st, h)
+    refused_calls_leave_no_trace(run, cfgs, nprng)
     rejected, tr = common.validate_traces_parallel("TraceStftDef", "TraceStftDef.cfg", traces, shards=14)
     run.traces += len(traces)
     run.states += tr.distinct
